@@ -460,6 +460,9 @@ func (g *Gen) primary(d int, c ectx) {
 		}
 		if n > 0 && g.R.Intn(5) == 0 {
 			g.feat("call:ellipsis")
+			if s := g.sb.String(); s[len(s)-1] >= '0' && s[len(s)-1] <= '9' {
+				g.w(" ") // `1...` would be scanned as the literal `1.` followed by `..`
+			}
 			g.w("...")
 		}
 		if n > 0 && g.R.Intn(8) == 0 {
